@@ -16,6 +16,7 @@ pub mod c20;
 pub mod c13;
 pub mod c14;
 pub mod c15;
+pub mod c16;
 pub mod c17;
 pub mod c18;
 pub mod c19;
@@ -123,6 +124,7 @@ pub fn run(ctx: &Ctx, rep: &mut Report) {
         "C13" => c13::run(ctx, rep),
         "C14" => c14::run(ctx, rep),
         "C15" => c15::run(ctx, rep),
+        "C16" => c16::run(ctx, rep),
         "C17" => c17::run(ctx, rep),
         "C18" => c18::run(ctx, rep),
         "C19" => c19::run(ctx, rep),
